@@ -141,7 +141,7 @@ pub fn fault_case(prop: &'static str, pairs: bool) -> impl Fn(&History, &mut Cur
         // them); the variants are judged by this check's own clauses
         let n = clean.requests;
         for k in 0..n {
-            let hk = History { ops: h.ops.clone(), plan: Plan { faults: vec![k] } };
+            let hk = History { ops: h.ops.clone(), plan: Plan { faults: vec![k], intrude: None } };
             cur.record(&history_value(&hk));
             let rk = run_history_for(&hk, prop);
             let nt = rk.ctx.tags.contains("fault_observed");
@@ -153,7 +153,7 @@ pub fn fault_case(prop: &'static str, pairs: bool) -> impl Fn(&History, &mut Cur
             }
             if pairs && rk.failures.is_empty() {
                 for j in (k + 1)..rk.requests {
-                    let hj = History { ops: h.ops.clone(), plan: Plan { faults: vec![k, j] } };
+                    let hj = History { ops: h.ops.clone(), plan: Plan { faults: vec![k, j], intrude: None } };
                     cur.record(&history_value(&hj));
                     let rj = run_history_for(&hj, prop);
                     let nt = rj.ctx.tags.contains("fault_observed") && rj.faults_fired >= 2;
@@ -376,7 +376,7 @@ pub fn c13(tier: Tier, seed: u64) -> Verdict {
     merged.counters.insert("grid_cases".into(), grid.len() as u64);
     if merged.violation.is_none() {
         let n = tier.pick(8000, 300_000);
-        for (i, p) in [Profile::shrink(), Profile { w_clone: 30, ..Profile::shrink() }].into_iter().enumerate() {
+        for (i, p) in [Profile::shrink(), Profile { w_clone: 30, intrusions: true, ..Profile::shrink() }].into_iter().enumerate() {
             let m = run_sharded("C13", seed, i as u64, n, || history_strategy(&p), plain_history_case("C13", rule));
             merged.merge(m);
             if merged.violation.is_some() {
